@@ -4,13 +4,46 @@ import json, os
 HERE = os.path.dirname(os.path.abspath(__file__))
 ALL = ["C%02d" % i for i in range(1, 21)]
 
+SERVE_NOTE = ("Trusted: Lean kernel (+propext, Classical.choice, Quot.sound, audited per run with #print axioms); the hand-written Lean models "
+              "(Goag.Router, Goag.Serve plan/serve, Goag.Spec JSON reader) are modelled, not verified: they are tied to /repo on every run by differential "
+              "correspondence (real goag in-process -> generated packages compiled and driven by reflection -> canonical traces diffed against the model, "
+              "both reading the same OpenAPI JSON file); Go's net/http, net/url, strconv, time as library hypotheses (float/time leaves supplied as a measured table); "
+              "the reflection driver /verif/harness/rt.")
+
 CHECKS = {
- "C13": dict(
-   category="proof",
-   text="Lean theorem Goag.Embed.embed_roundtrip: for every NUL-free content s, the Go constant expression goag writes (model encodeRaw of generator/files.go) evaluates (model goEval of Go string-literal lexing) to exactly s. The model is tied to the code on every run: the literal chain text and the go/constant value read back from the real spec_file.go must equal the model's output on exhaustive short strings over the quoting-relevant alphabet, fixture specs in five byte forms, and random text. The served half (GET <base>/<name>) is covered by the routing facet.",
+ "C03": dict(category="proof",
+   text="Lean theorem Goag.Router.route_refines_spec: for every well-formed (pairwise non-equivalent) template set, every base path, every request path string and every method selection, the model of the emitted router (route tree built by Route.add + route<Node> functions) returns exactly the literal-first maximal OpenAPI match (not-found iff nothing matches; the reported template is the matched item's). Proved by induction over the nested route tree (build_has: what Route.add stores; eval_sound/eval_none: what the emitted switch cascade finds). The model is tied to the code by ~2x10^5 requests per quick run over ~160 freshly generated packages.",
+   design_ref="DESIGN.md §4.3", note=SERVE_NOTE,
+   technique="Lean 4 refinement proof (emitted router = literal-first OpenAPI matcher) + differential correspondence of model and generated code"),
+ "C04": dict(category="translation_validation",
+   text="The Lean model of new<Op>Params (parseBlock/parseValues over the merged declaration list, closed-form strconv.ParseInt/ParseBool, measured table for float/time leaves) and the reference (malformed iff required-absent / scalar-repeated / out-of-lexical-space) are executed beside the real generated parsers on every type x location x required x ref-form x level combination with lexeme-class x cardinality requests; the general iff theorem over parseBlock is stated in DESIGN.md but not yet proved, so the claim is per-program validation against an executable formal reference, not proof.",
+   design_ref="DESIGN.md §4.4", note=SERVE_NOTE,
+   technique="executable Lean model + reference oracle, differential validation per generated program (theorem pending)"),
+ "C05": dict(category="translation_validation",
+   text="The Lean model pathParse(pathProgOf template) (PathBuilder alternation of constant prefixes and variable extractors incl. base-path stripping) and the reference refPathParams (typed value of the segment at the parameter's own template position; empty/ill-typed => error naming it) run beside every dispatched request's Parse(); offsets of router and parser are derived independently in the code and in the model. General theorem not yet proved: per-program validation level.",
+   design_ref="DESIGN.md §4.5", note=SERVE_NOTE,
+   technique="executable Lean model + reference oracle, differential validation per generated program (theorem pending)"),
+ "C11": dict(category="proof",
+   text="Lean theorems auth_sound / auth_complete: for every requirement list in the implemented fragment (one supported scheme per alternative, one bearer slot), every installed-authenticator configuration and every request, the emitted authMiddlewareOr wrapper (model authOr over NewRouter's argument list, after NewSecurityRequirements) lets the handler run iff some alternative of the operation's own effective requirement is accepted, with the request that authenticator returned; denied => 401 and no handler; empty list => public. The full statement is proved FALSE (authExactFull_false) with the two recorded finding classes as witnesses (KF-C11-arity, KF-C11-unsupported), replayed against the real code on every run.",
+   design_ref="DESIGN.md §4.11", note=SERVE_NOTE + " Partial: requirement alternatives with !=1 scheme or unsupported scheme kinds are recorded known findings.",
+   technique="Lean 4 proof over authMiddlewareOr + requirement reduction (partial, with machine-checked negation of the full statement) + differential correspondence"),
+ "C13": dict(category="proof",
+   text="Lean theorem Goag.Embed.embed_roundtrip: for every NUL-free content s, the Go constant expression goag writes (model encodeRaw of generator/files.go) evaluates (model goEval of Go string-literal lexing) to exactly s; theorems spec_served / spec_only_when_installed: the spec body is served for exactly <base>/<name> when the handler is installed, bypassing routes and middlewares. Tied on every run: literal chain text + go/constant value of the real spec_file.go vs the model on exhaustive short strings over the quoting alphabet, fixtures in five byte forms, random text; served half through the routing corpus.",
    design_ref="DESIGN.md §4.13",
-   note="Trusted: Lean kernel (+propext, Classical.choice, Quot.sound), hand-written models encodeRaw/goEval (tied by differential correspondence, not verified), go/parser+go/types as judge of the constant value, kin-openapi loader as the definition of 'spec file content'.",
+   note="Trusted: Lean kernel (+propext, Classical.choice, Quot.sound), hand-written models encodeRaw/goEval/serve (tied by differential correspondence, not verified), go/parser+go/types as judge of the constant value, kin-openapi loader as the definition of 'spec file content'.",
    technique="Lean 4 proof by induction over the content + differential correspondence of the encoder/lexer model with the real generator output"),
+ "C14": dict(category="other",
+   text="Every ServeHTTP and Parse() of the routing / security / parameter corpora runs under recover with a counting ResponseWriter: no panic and exactly one WriteHeader for ~2x10^5 requests per run incl. near-miss paths, paths without leading slash, nil / rejecting authenticators, repeated credentials. The Lean serve model is total and produces exactly one response event per request by construction, but checked-slice fault modelling (DESIGN §4.14) is not built yet, so no theorem is claimed: exploration with a model cross-check.",
+   design_ref="DESIGN.md §4.14", note=SERVE_NOTE + " Not covered: panics inside net/http / encoding/json internals, nil handler fields, malformed user response values.",
+   technique="recover-wrapped differential runs against the executable Lean serve model (no theorem claimed yet)"),
+ "C16": dict(category="proof",
+   text="Lean theorems middleware_trace / serve_routed / serve_unrouted_bypass / each_middleware_once: for middleware stacks of ANY length the model of ServeHTTP wraps the (security-wrapped) operation handler so that each middleware is entered exactly once, first-declared outermost, all authenticator and handler events strictly inside, with the matched template visible; spec-file, not-found and CORS requests produce no middleware event. Tied by traces of logging middlewares (0-4) on the routing corpus, including multi-request sessions on one API value.",
+   design_ref="DESIGN.md §4.16", note=SERVE_NOTE,
+   technique="Lean 4 proof (reverse wrap loop = right fold; trace shape) + differential correspondence of event traces"),
+ "C17": dict(category="proof",
+   text="Lean theorems cors_arm_exact / options_not_shadowed / cors_off / cors_requires_handler / dedupKeep_spec / sec_headers_fragment: the synthetic preflight arm exists exactly for path items without OPTIONS when CORS is on, carries exactly the declared methods and the de-duplicated canonical header list, never shadows a declared OPTIONS, and is inert without a handler. Tied by the (methods, headers) actually received by API.CORSHandler on routing / parameter / security corpora (case-variant header spellings, security headers).",
+   design_ref="DESIGN.md §4.17", note=SERVE_NOTE + " Partial where a requirement names several schemes (KF-C11-arity: only the first scheme's header is advertised).",
+   technique="Lean 4 proof over the NewRouter accumulation model + differential correspondence of CORSHandler arguments"),
 }
 
 REASONS_PENDING = "check not built yet in this round of work (see DESIGN.md §12 order); nothing is claimed for it"
